@@ -163,44 +163,49 @@ Print Assumptions keyed_state_is_map_over_lsm_reopen_id.
 (* ---------------------------------------------------------------- keyed_state_restore_over_lsm_partial
    Restore over the LSM model WITHOUT a hypothesis, by composing C07 with C08 through the specification map.
    No single database model of this development has both reads under flush / compaction schedules (Model/Lsm.v has
-   no WAL) and checkpoint / WAL replay (Model/Ckpt.v has no prefix scan and no background schedule of its own tied to
-   C18). So the DKV here is the PAIR of both (Model/StateStoreCkpt.v), driven in lockstep: every DB.Put / DB.Delete of
-   the operator goes to both; scans are answered by the LSM side under the schedule [sc] (any F1 F2 C1 C2 before every
-   foreground action and between the halves of every scan); a redeploy from the checkpoint taken at a barrier
-     - reopens the durable side as C08 models it: Checkpoint capture (level set, WAL content, LatestSeqNum) of the
-       durable database of the barrier, then DB.Start: captured tables + replay of the WAL after LatestSeqNum
-       ([ckpt_reopen], replay_never_fails + checkpoint_exact_db of Proofs/C08_Ckpt.v), and
-     - gives the LSM side a new database loaded with the map it served at the barrier ([lsm_load]: every entry
-       through DB.Put, with its rotations; the schedule goes on).
-   Theorem, for EVERY cfg_ok option setting, schedule, sizes of the durable side, handler, watermark guard and history
-   (any number of checkpoints and redeploys, any schedule before, between and after them): the operator never panics;
-   the handler-visible trace is the specification machine's - after a redeploy the state handed over for a key is the
-   fold of the mutations up to the barrier of the restored checkpoint and of those since; the durable database is one
-   that can exist (C08 [reach]); and the map the LSM side serves equals, for every key, db_get of the durable database -
-   in particular right after a redeploy the reloaded map IS the content of the database C08's reopening yields.
-   GAP (why _partial): (1) the layout of the LSM side after a redeploy is a reload of the barrier map, not "tables of the
-   checkpoint + memtables rebuilt from the WAL" - C07 covers every reachable layout and the state store observes only
-   the contents, but that the real post-restore layout is one of them is not proved; (2) the durable side performs the
-   writes (with rotations), the Checkpoint capture and the reopening, but none of C08's background actions (flush swap,
-   compaction apply): C08 proves its invariant for them, not that db_get is unchanged by them (C18's subject), so they
-   cannot be scheduled here without that lemma; the running durable database also does not see the WAL rotation of
-   Checkpoint (the KV interface has no checkpoint call; db_get does not depend on it). The two models are tied only by
-   the map they hold. keyed_state_is_map_over_lsm (restore as a hypothesis on the LSM model alone) is kept above. *)
-From RV Require Import Model.StateStoreCkpt Proofs.C03_Restore.
-From RV Require Model.Ckpt Proofs.C08_Ckpt.
+   no WAL) and checkpoint / WAL replay (Model/Ckpt.v has no prefix scan). So the DKV here is the PAIR of both
+   (Proofs/C03_RestoreBg.v), driven in lockstep, each side under its own arbitrary background schedule:
+     - every DB.Put / DB.Delete of the operator goes to both sides;
+     - scans are answered by the LSM side under the schedule [sc] (any F1 F2 C1 C2 before every foreground action and
+       between the halves of every scan);
+     - the durable side runs, before every foreground action and every redeploy, the next list of its schedule [dsc]:
+       flush swaps (of any snapshotted prefix of the sealed memtables), merging compactions of any set of tables cut
+       into any runs (the real compactor's shape), and the locked part of Checkpoint (WAL rotation) - the
+       contents-preserving actions of Proofs/C08_Contents.v ([act_okc], [background_keeps_contents]);
+     - a redeploy from the checkpoint taken at a barrier reopens the durable side as C08 models it: Checkpoint capture
+       (level set, WAL content, LatestSeqNum) of the durable database of the barrier - whatever flushes were in flight
+       or done, whatever was compacted -, then DB.Start: captured tables + replay of the WAL after LatestSeqNum
+       ([ckpt_reopen], checkpoint_exact_dbc), and gives the LSM side a new database loaded with the map it served at
+       the barrier ([lsm_load]: every entry through DB.Put, with its rotations; both schedules go on).
+   Theorem, for EVERY cfg_ok option setting, both schedules, sizes of the durable side, handler, watermark guard and
+   history (any number of checkpoints and redeploys): the operator never panics; the handler-visible trace is the
+   specification machine's - after a redeploy the state handed over for a key is the fold of the mutations up to the
+   barrier of the restored checkpoint and of those since; the durable database is one that can exist with
+   contents-preserving actions (C08 [reachc]); and the map the LSM side serves equals, for every key, db_get of the
+   durable database - in particular right after a redeploy the reloaded map IS the content of the database C08's
+   reopening yields.
+   REMAINING GAP (why _partial): the layout of the LSM side after a redeploy is a reload of the barrier map, not "the
+   tables of the checkpoint + memtables rebuilt from the WAL". C07 covers every reachable layout and the state store
+   observes only the contents, but that the real post-restore layout is a reachable (DBInv) Lsm.db is not proved:
+   Model/Lsm.v has no WAL from which to rebuild it. The two models are tied by the map they hold, not by their layouts
+   (their rotation / flush moments are independent). keyed_state_is_map_over_lsm (restore as a contract on the LSM
+   model alone) is kept above. *)
+From RV Require Import Model.StateStoreCkpt Proofs.C03_Restore Proofs.C03_RestoreBg.
+From RV Require Model.Ckpt Proofs.C08_Ckpt Proofs.C08_Contents.
 
 Theorem keyed_state_restore_over_lsm_partial :
   forall (cfg : Lsm.dbcfg) (Hcfg : C07_Refine.cfg_ok cfg)
-         (count : N) (accept : bytes -> Z -> bool) (h : handler) (steps : list step) (sc : schedule) (mem wm : N),
+         (count : N) (accept : bytes -> Z -> bool) (h : handler) (steps : list step)
+         (sc : schedule) (dsc : dschedule) (mem wm : N),
     handler_ok h -> Forall step_ok steps ->
-    exists y, run (pair_kv cfg Hcfg) (key_group count) accept h
-                  (init_sys (pair_kv cfg Hcfg) (pair_init cfg Hcfg sc mem wm)) steps = Some y /\
+    exists y, run (bpair_kv cfg Hcfg) (key_group count) accept h
+                  (init_sys (bpair_kv cfg Hcfg) (bpair_init cfg Hcfg sc dsc mem wm)) steps = Some y /\
               sy_trace y = o_trace (o_run h o_init steps) /\
-              C08_Ckpt.reach (durable (sy_db y)) /\
-              forall k, Lsm.sm_get k (pair_contents (sy_db y)) = Ckpt.db_get (durable (sy_db y)) k.
+              C08_Contents.reachc (bdurable (sy_db y)) /\
+              forall k, Lsm.sm_get k (bpair_contents (sy_db y)) = Ckpt.db_get (bdurable (sy_db y)) k.
 Proof.
-  intros cfg Hcfg count accept h steps sc mem wm.
-  exact (restore_over_lsm cfg Hcfg (key_group count) accept h steps sc mem wm).
+  intros cfg Hcfg count accept h steps sc dsc mem wm.
+  exact (restore_over_lsm_bg cfg Hcfg (key_group count) accept h steps sc dsc mem wm).
 Qed.
 Print Assumptions keyed_state_restore_over_lsm_partial.
 
@@ -282,16 +287,22 @@ Example ex_run_faulty :
 Proof. vm_compute. reflexivity. Qed.
 
 (* the pair computes: same history as ex_run_over_lsm (checkpoint, two batches, redeploy, one batch) with background
-   steps everywhere; the durable side is reopened by table load + WAL replay (20-byte memtables: it rotates), the LSM
-   side reloaded; the KeyStates after the redeploy are those of the barrier *)
-Definition ex_pair_kv : KV := pair_kv ex_lsm_cfg ex_lsm_cfg_ok.
+   steps everywhere on both sides; the durable side (20-byte memtables: it rotates) flushes, rotates its WAL, compacts
+   tables 0 and 1 of directory 0 into runs cut after 1 entry, and is reopened by table load + WAL replay; the LSM side is
+   reloaded; the KeyStates after the redeploy are those of the barrier, and the durable side ends with tables *)
+Definition ex_bpair_kv : KV := bpair_kv ex_lsm_cfg ex_lsm_cfg_ok.
+Definition ex_dsched : dschedule :=
+  repeat [DFlush 1 0 0; DCkpt; DFlush 1 0 1; DCompact [(0, 0, 0); (0, 0, 1)] 0 7 [1%nat]; DFlush 5 0 9] 40.
 Example ex_run_over_pair :
-  option_map (fun y : sys ex_pair_kv => (map (fun rr => rq_states (fst rr)) (sy_trace y),
-                                         Ckpt.db_get (durable (sy_db y)) (enc_db (key_group 7) [97] [1] [2])))
-    (run ex_pair_kv (key_group 7) (fun _ _ => true) ex_handler (init_sys ex_pair_kv (pair_init ex_lsm_cfg ex_lsm_cfg_ok ex_sched 20 1000))
+  option_map (fun y : sys ex_bpair_kv => (map (fun rr => rq_states (fst rr)) (sy_trace y),
+                                          Ckpt.db_get (bdurable (sy_db y)) (enc_db (key_group 7) [97] [1] [2]),
+                                          Ckpt.db_get (bdurable (sy_db y)) (enc_db (key_group 7) [97] [] []),
+                                          negb (match Ckpt.d_tables (bdurable (sy_db y)) with [] => true | _ => false end)))
+    (run ex_bpair_kv (key_group 7) (fun _ _ => true) ex_handler
+       (init_sys ex_bpair_kv (bpair_init ex_lsm_cfg ex_lsm_cfg_ok ex_sched ex_dsched 20 1000))
        [SBatch [([97], []); ([97; 98], []); ([97], [])]; SCkpt 1; SBatch [([97], [])]; SBatch [([97], [])]; SRestore 1; SBatch [([97], [])]])
   = Some ([ [([97], []); ([97; 98], [])];
             [([97], [([], [([], [])]); ([1], [([2], [3])])])];
             [([97], [([], [([], [])])])];
-            [([97], [([], [([], [])]); ([1], [([2], [3])])])] ], None).
+            [([97], [([], [([], [])]); ([1], [([2], [3])])])] ], None, Some [], true).
 Proof. vm_compute. reflexivity. Qed.
